@@ -140,6 +140,20 @@ CLAIMED["C18"] = (
     "depth <= 4.",
     "DESIGN.md 3/C18",
 )
+CLAIMED["C19"] = (
+    "differential/metamorphic: extend_schema(build(A), B) vs build(A + B) on generated (base, extension) "
+    "splits of schema models; sort idempotence/order/no-change laws; change detector soundness on valid "
+    "single-edit mutants",
+    "For generated splits (extension fields, interface implementations, union members, enum values, optional "
+    "input fields, directive definitions, operation types, specifiedBy, applied directives, new types; drawn "
+    "definition order) the extended schema and the schema built from both texts are valid, print identically "
+    "after sorting, show no schema changes and have equal structural views (coerced defaults included); the "
+    "base object is unchanged and a no-op document returns it; sorting is idempotent, ordered, change-free and "
+    "structure-preserving; find_schema_changes(s, s) is empty, reported changes imply different printed forms "
+    "and detectable edits that change the printed form are reported.",
+    "Extension-added input fields are optional; type order is compared after sorting.",
+    "DESIGN.md 3/C19",
+)
 PENDING_REASON = (
     "check under construction in this session (DESIGN.md section 3 has its design); it is not claimed "
     "until it has run quietly on the unchanged tree at several seeds"
